@@ -696,7 +696,7 @@ func (g *G) envFileContent(label string, vars []string) string {
 		case 0:
 			fmt.Fprintf(&b, "%s=%s\n", k, g.word(label+"-v"))
 		case 1:
-			fmt.Fprintf(&b, "export %s=\"%s value\"\n", k, g.word(label+"-v"))
+			fmt.Fprintf(&b, "export %s=\"%s value\\twith\\\\escapes\"\n", k, g.word(label+"-v"))
 		case 2:
 			fmt.Fprintf(&b, "%s='single $NOEXPAND'\n", k)
 		case 3:
